@@ -84,6 +84,7 @@ func (s *vState) Flag(c int) bool             { return false }
 //verif:harness C02 quick t=0..2
 //verif:harness C02 thorough t=3..12
 func H_C02_roundtrip(t int) {
+	vMergeOutcomes()
 	n := Number(vU64("n"))
 	vAssume(uint64(n) >= uint64(t)*1000 && uint64(n) < uint64(t+1)*1000)
 	f := Format(vU8("f") & 127)
@@ -106,6 +107,7 @@ func H_C02_roundtrip(t int) {
 //
 //verif:harness C02 quick path=0..2
 func H_C02_paths(path int) {
+	vMergeOutcomes()
 	n := Number(vU64("n"))
 	vAssume(n < 2000)
 	df := Format(vU8("df") & 127)
@@ -134,6 +136,7 @@ func H_C02_paths(path int) {
 
 //verif:harness C02 quick verb=0..3
 func H_C02_verbs(verb int) {
+	vMergeOutcomes()
 	n := Number(vU64("n"))
 	vAssume(n < 2000)
 	var sv vState
